@@ -203,6 +203,39 @@ func cmdCheck(repo, verifDir, id, tier string) int {
 			}
 		}
 	}
+	// vacuity guard on the lemma library itself: the library axioms in scope of a function, asserted together on top of
+	// the engine's theory of sequences / sets / maps, must not be refutable (one query per distinct set of axioms)
+	{
+		seenSet := map[string]bool{}
+		seenD := map[*Decls]bool{}
+		for _, o := range all {
+			d := o.D
+			if d == nil || seenD[d] {
+				continue
+			}
+			seenD[d] = true
+			var names, forms []string
+			for i, name := range d.axiomName {
+				if !strings.HasPrefix(name, "axiom.") {
+					continue
+				}
+				for _, tr := range strings.Split(d.axiomTrig[i], "|") {
+					if _, ok := d.funs[tr]; ok {
+						names = append(names, strings.TrimPrefix(name, "axiom."))
+						forms = append(forms, d.axioms[i])
+						break
+					}
+				}
+			}
+			key := strings.Join(names, ",")
+			if len(names) == 0 || seenSet[key] {
+				continue
+			}
+			seenSet[key] = true
+			all = append(all, &Obligation{Fn: "(lemma library)", Name: "cover:axioms:" + key, Kind: "cover", Desc: "the lemma-library axioms in scope are jointly satisfiable",
+				Assumps: forms, RawPre: edgeInstances(forms, d), Goal: "false", ExpectSat: true, D: d})
+		}
+	}
 	if len(fnErrs) > 0 {
 		// a function under contract could not be turned into obligations: tool error, not a verdict
 		for _, fe := range fnErrs {
